@@ -2,12 +2,14 @@
 # usage: try_seed.sh <patch.diff> <ID> [<ID>...]
 # applies a seeded change to /repo, runs the quick checks, always restores /repo.
 patch=$1; shift
-cd /repo || exit 2
-if ! git diff --quiet; then echo "/repo has local changes; refusing"; exit 2; fi
+REPO=${VERIF_REPO:-/repo}
+VERIF=$(cd "$(dirname "$0")/.." && pwd)
+cd $REPO || exit 2
+if ! git diff --quiet; then echo "$REPO has local changes; refusing"; exit 2; fi
 git apply "$patch" || { echo "patch does not apply"; exit 2; }
-trap 'git -C /repo checkout -- . ; git -C /repo clean -fdq' EXIT
+trap 'git -C $REPO checkout -- . ; git -C $REPO clean -fdq' EXIT
 for id in "$@"; do
-  out=$(cd /verif && ./check "$id" 2>/dev/null); rc=$?
+  out=$(cd $VERIF && ./check "$id" 2>/dev/null); rc=$?
   echo "== $id rc=$rc"; echo "$out" | grep -v KNOWN-FINDING | head -3
   f=$(echo "$out" | sed -n 's/.*replay=\(\S*\).*/\1/p' | head -1)
   [ -n "$f" ] && python3 -c "
